@@ -76,6 +76,7 @@ def _write_one(prop, r, src, cx, hit, tried, error):
     if error: doc['replay_error'] = error
     if r.get('native_case') is not None:          # violation found natively by a bounded stand-in
         doc['failing_input'] = r['native_case']; doc['native_failures'] = r.get('native_failures'); doc['source'] = 'native search'
+        if r.get('native_prop'): doc['native_prop'] = r['native_prop']
     elif hit is not None:
         doc['failing_input'], doc['native_failures'] = hit; doc['source'] = 'solver model'
     elif _has_native(prop) or r.get('meta', {}).get('kind') == 'frame' or r.get('meta', {}).get('history'):
